@@ -49,7 +49,6 @@ import (
 	"github.com/teleport-network/teleport/x/xibc/exported"
 )
 
-const c09Chain = "bsc"
 
 var c09UncleHash = common.HexToHash("0x1dcc4de8dec75d7aab85b567b6ccd41ad312451b948a7413f0a142fd40d49347")
 
@@ -150,26 +149,54 @@ func c09UpdateOp(bt uint64, chainID uint64, h *bsctypes.Header) string {
 
 // ---- the world: real app + the oracle's own bookkeeping ---------------------------------------------
 
-type c09World struct {
-	app  *app.Teleport
-	base sdk.Context
-	ctx  sdk.Context
-	hist []string
-	// bookkeeping of the oracle (built from accepted op lines only)
+// per-client bookkeeping of the oracle (built from accepted op lines only)
+type c09Book struct {
 	created   bool
 	chainID   uint64
 	epoch     uint64
 	head      *bsctypes.Header
 	sealedBy  map[uint64]common.Address // height -> sealer of the accepted header
 	startH    uint64
-	lastEpoch [][]byte   // validator list carried by the last accepted epoch header
-	presVals  [][]byte   // the validator list the RULE prescribes now (harness bookkeeping, never read from the client)
-	prevVals  [][]byte   // the prescribed list before the last switch
-	switchAt  uint64     // height of the last prescribed switch
+	lastEpoch [][]byte // validator list carried by the last accepted epoch header
+	presVals  [][]byte // the validator list the RULE prescribes now (harness bookkeeping, never read from the client)
+	prevVals  [][]byte // the prescribed list before the last switch
+	switchAt  uint64   // height of the last prescribed switch
 	tp        uint64
-	maxN      int        // largest prescribed set so far (bounds every recents window of this history)
+	maxN      int             // largest prescribed set so far (bounds every recents window of this history)
 	rawAfter    map[uint64]int  // number of distinct validators in force after height h was accepted
 	consPresent map[uint64]bool // consensus state of height h still stored just before the current op
+}
+
+func newC09Book() *c09Book {
+	return &c09Book{sealedBy: map[uint64]common.Address{}, rawAfter: map[uint64]int{}, consPresent: map[uint64]bool{}}
+}
+
+// two clients ("bsc", "bscb") may follow the same generated chain in one process; an op addresses one of them
+// (`update` = client 0, `update@1` = client 1). The embedded book / chain name are those of the addressed client.
+var c09Chains = [2]string{"bsc", "bscb"}
+
+type c09World struct {
+	app   *app.Teleport
+	base  sdk.Context
+	ctx   sdk.Context
+	hist  []string
+	books [2]*c09Book
+	chain string
+	*c09Book
+}
+
+func (w *c09World) sel(i int) {
+	w.c09Book, w.chain = w.books[i], c09Chains[i]
+}
+
+func c09Target(word string) (string, int) {
+	if i := strings.IndexByte(word, '@'); i >= 0 {
+		if word[i+1:] == "1" {
+			return word[:i], 1
+		}
+		return word[:i], 0
+	}
+	return word, 0
 }
 
 func newC09World() *c09World {
@@ -183,21 +210,16 @@ func newC09World() *c09World {
 func (w *c09World) reset() {
 	w.ctx, _ = w.base.CacheContext()
 	w.hist = nil
-	w.created = false
-	w.head = nil
-	w.sealedBy = map[uint64]common.Address{}
-	w.rawAfter = map[uint64]int{}
-	w.consPresent = map[uint64]bool{}
-	w.lastEpoch = nil
-	w.presVals, w.prevVals, w.switchAt, w.maxN = nil, nil, 0, 0
+	w.books = [2]*c09Book{newC09Book(), newC09Book()}
+	w.sel(0)
 }
 
 func (w *c09World) store(ctx sdk.Context) sdk.KVStore {
-	return w.app.XIBCKeeper.ClientKeeper.ClientStore(ctx, c09Chain)
+	return w.app.XIBCKeeper.ClientKeeper.ClientStore(ctx, w.chain)
 }
 
 func (w *c09World) clientState(ctx sdk.Context) *bsctypes.ClientState {
-	cs, ok := w.app.XIBCKeeper.ClientKeeper.GetClientState(ctx, c09Chain)
+	cs, ok := w.app.XIBCKeeper.ClientKeeper.GetClientState(ctx, w.chain)
 	if !ok {
 		return nil
 	}
@@ -265,7 +287,7 @@ func (w *c09World) dump(ctx sdk.Context, h *bsctypes.Header) string {
 	}
 	pend := bsctypes.GetPendingValidators(w.app.AppCodec(), w.store(ctx)).Validators
 	c := "none"
-	if st, ok := w.app.XIBCKeeper.ClientKeeper.GetClientConsensusState(ctx, c09Chain, h.Height); ok {
+	if st, ok := w.app.XIBCKeeper.ClientKeeper.GetClientConsensusState(ctx, w.chain, h.Height); ok {
 		c = fmt.Sprintf("%d:%s", st.GetTimestamp(), hx(st.GetRoot()))
 	}
 	return fmt.Sprintf("ok H:%d-%d V:%s P:%s R:%s C:%s N:%d", cs.Header.Height.RevisionNumber, cs.Header.Height.RevisionHeight,
@@ -352,7 +374,46 @@ func (w *c09World) apply(r *Rec, op string) string {
 	f := strings.Fields(op)
 	w.hist = append(w.hist, op)
 	k := w.app.XIBCKeeper.ClientKeeper
-	switch f[0] {
+	opName, target := c09Target(f[0])
+	if opName != "reset" {
+		w.sel(target)
+	}
+	switch opName {
+	case "dry": // an update executed on a context that is then dropped (failed multi-msg tx, simulation): the seal is
+		// checked, nothing is kept. The verdict is still judged by the oracle.
+		bt := c09U(f[1])
+		h := c09ParseHdr(f[2:])
+		before := w.clientState(w.ctx)
+		whyNot := w.invalidBecause(h, bt)
+		cctx, _ := w.ctx.WithBlockTime(time.Unix(int64(bt), 0)).CacheContext()
+		var err error
+		pan, _ := safely(func() { err = k.UpdateClient(cctx, w.chain, h) })
+		switch {
+		case pan:
+			r.Count("dry.panic")
+		case err != nil:
+			r.Count("dry.err")
+		default:
+			r.Count("dry.ok")
+		}
+		if (pan || err != nil) && whyNot == "" {
+			w.find(r, "C09:valid-header-refused:discarded-execution", "a valid next header was refused in a discarded execution", fmt.Sprintf("refused (err=%v panic=%v)", err, pan), "accepted")
+		}
+		if !pan && err == nil && before != nil {
+			signer, ok := c09Recover(h, before.ChainId)
+			if !ok || signer != common.BytesToAddress(h.Coinbase) {
+				w.find(r, "C09:accepted-signer-not-coinbase", "a discarded execution accepted a header whose seal does not recover to its coinbase", signer.Hex(), hx(h.Coinbase))
+			} else if !c09Distinct(before.Validators)[signer] {
+				w.find(r, "C09:accepted-non-member", "a discarded execution accepted a sealer outside the validator set", signer.Hex(), "member of the set")
+			}
+		}
+		if pan {
+			return "dry-panic"
+		}
+		if err != nil {
+			return "dry-err"
+		}
+		return "dry-ok"
 	case "reset":
 		w.reset()
 		w.hist = []string{op}
@@ -386,7 +447,7 @@ func (w *c09World) apply(r *Rec, op string) string {
 			if err = cs.Validate(); err != nil { // CreateClientProposal.ValidateBasic
 				return
 			}
-			err = k.CreateClient(cctx, c09Chain, cs, cons)
+			err = k.CreateClient(cctx, w.chain, cs, cons)
 		})
 		if pan {
 			r.Count("create.panic")
@@ -423,7 +484,7 @@ func (w *c09World) apply(r *Rec, op string) string {
 		whyNot := w.invalidBecause(h, bt) // the rule's own verdict, before the code is asked
 		cctx, write := w.ctx.WithBlockTime(time.Unix(int64(bt), 0)).CacheContext()
 		var err error
-		pan, _ := safely(func() { err = k.UpdateClient(cctx, c09Chain, h) })
+		pan, _ := safely(func() { err = k.UpdateClient(cctx, w.chain, h) })
 		if (pan || err != nil) && whyNot == "" {
 			r.Count("oracle.valid-header-refused")
 			mech := "member-of-prescribed-set"
@@ -523,7 +584,7 @@ func (w *c09World) oracle(r *Rec, before *bsctypes.ClientState, h *bsctypes.Head
 	if after.Header.Height != h.Height || c09Hash(&after.Header) != c09Hash(h) || !bytes.Equal(after.Header.Extra, h.Extra) {
 		w.find(r, "C09:head-not-updated", "head is not the accepted header", fmt.Sprint(after.Header.Height), fmt.Sprint(h.Height))
 	}
-	st, okc := w.app.XIBCKeeper.ClientKeeper.GetClientConsensusState(w.ctx, c09Chain, h.Height)
+	st, okc := w.app.XIBCKeeper.ClientKeeper.GetClientConsensusState(w.ctx, w.chain, h.Height)
 	if !okc || st.GetTimestamp() != h.Time || !bytes.Equal(st.GetRoot(), h.Root) {
 		w.find(r, "C09:root-not-recorded", "consensus state of the accepted height is not <time, root>", fmt.Sprint(okc), "time/root of the header")
 	}
